@@ -128,6 +128,8 @@ def run_property(pid, tier, seed):
     n_inst = 0
     ctx = multiprocessing.get_context('fork')
     limit_s = cfg.get('job_limit_s', 150 if tier == 'quick' else 900)
+    if tier != 'quick':
+        limit_s = max(limit_s, 900)
     with cf.ProcessPoolExecutor(max_workers=WORKERS, mp_context=ctx) as pool:
         futs = []
         for modname in cfg.get('unit_modules', []):
